@@ -245,6 +245,11 @@ func optExec(c *optCase) {
 			switch c.Mode {
 			case "err":
 				v = make(chan int)
+			case "err-field", "err-embedded":
+				v = struct {
+					N int      `json:",string"`
+					C chan int `json:",string"`
+				}{N: 5}
 			case "panic":
 				v = panicky{}
 			}
@@ -270,6 +275,14 @@ func optExec(c *optCase) {
 			switch c.Mode {
 			case "err":
 				tgt = new(chan int)
+			case "err-field": // the error arises below a field whose tag options are in force
+				tgt = new(struct {
+					A int
+					N int `json:",string"`
+					S int
+				})
+			case "err-embedded": // ... or before the field's value is even looked at
+				tgt = new(awkOuterStr)
 			case "panic":
 				tgt = new(panicky)
 			}
@@ -334,7 +347,7 @@ func driveOpt(args map[string]string) error {
 				c.Extra = append(c.Extra, setterForKey(r, keys[r.IntN(len(keys))]))
 			}
 		case 2:
-			c.Kind, c.Coder, c.Mode = "scoped", []string{"encoder", "decoder"}[r.IntN(2)], []string{"ok", "ok", "err", "panic"}[r.IntN(4)]
+			c.Kind, c.Coder, c.Mode = "scoped", []string{"encoder", "decoder"}[r.IntN(2)], []string{"ok", "ok", "err", "panic", "err-field", "err-embedded"}[r.IntN(6)]
 			if r.IntN(2) == 0 { // probe: only arshal options, so that the output is what ProbeOut models
 				c.Probe = c.Coder == "encoder" && c.Mode == "ok"
 				for k := 0; k < r.IntN(3); k++ {
@@ -345,6 +358,9 @@ func driveOpt(args map[string]string) error {
 				}
 			} else {
 				c.A, c.B = seq(3), seq(3)
+			}
+			if r.IntN(3) == 0 { // a call without options of its own works on the coder's options directly
+				c.B = []setter{}
 			}
 		default:
 			c.Kind, c.Op = "v1eq", []string{"marshal", "unmarshal", "cancel"}[r.IntN(3)]
@@ -363,3 +379,11 @@ func driveOpt(args map[string]string) error {
 }
 
 func init() { commands["drive-opt"] = driveOpt }
+
+type awkHiddenStr struct {
+	N int `json:",string"`
+}
+type awkOuterStr struct {
+	*awkHiddenStr
+	A int
+}
